@@ -11,6 +11,7 @@ import (
 
 	"github.com/bazelbuild/remote-apis-sdks/go/pkg/uploadinfo"
 	pb "github.com/bazelbuild/remote-apis/build/bazel/remote/execution/v2"
+	"google.golang.org/protobuf/proto"
 
 	"github.com/thought-machine/please/src/core"
 )
@@ -141,3 +142,6 @@ func (v *VerifClient) TargetPlatform(target *core.BuildTarget) *pb.Platform {
 
 // Timeout is the timeout that goes into the Action.
 func VerifTimeout(target *core.BuildTarget, isTest bool) int64 { return int64(timeout(target, isTest)) }
+
+// DigestMessage is Client.digestMessage (C28 follow-up: called from several goroutines on one client).
+func (v *VerifClient) DigestMessage(msg proto.Message) *pb.Digest { return v.c.digestMessage(msg) }
